@@ -282,6 +282,49 @@ func c14perturb(rng *rand.Rand, proto string, ops []c14op) (string, []c14op, str
 	return proto, cp, "", false
 }
 
+// c14interleaved runs two operation sequences on two live transcripts, alternating between them step by step: each
+// transcript's challenges must be those of its own sequence (no state shared between transcript objects).
+func c14interleaved(c *mon.Ctx, rng *rand.Rand, pool *Pool) {
+	protoA, protoB := "A-"+string(c14bytes(rng, 8)), "B-"+string(c14bytes(rng, 8))
+	opsA, opsB := c14gen(rng, 24, 120, len(pool.P)), c14gen(rng, 24, 120, len(pool.P))
+	la, lb := common.NewTranscript(protoA), common.NewTranscript(protoB)
+	ra, rb := ref.NewTranscript(protoA), ref.NewTranscript(protoB)
+	apply := func(lt *common.Transcript, rt *ref.Transcript, o c14op, who string) {
+		switch o.kind {
+		case 0:
+			lt.DomainSep(append([]byte(nil), o.label...))
+			rt.DomainSep(o.label)
+		case 1:
+			lt.AppendMessage(append([]byte(nil), o.msg...), append([]byte(nil), o.label...))
+			rt.AppendMessage(o.msg, o.label)
+		case 2:
+			e := FrFromBig(o.s)
+			lt.AppendScalar(&e, append([]byte(nil), o.label...))
+			rt.AppendScalar(o.s, o.label)
+		case 3:
+			e := ElemFromRef(pool.P[o.pt], nil, o.rep%2 == 1)
+			lt.AppendPoint(&e, append([]byte(nil), o.label...))
+			rt.AppendPoint(pool.P[o.pt], o.label)
+		case 4:
+			got := lt.ChallengeScalar(append([]byte(nil), o.label...))
+			want := rt.ChallengeScalar(o.label)
+			c.Count("challenges_compared", 1)
+			if FrToBig(&got).Cmp(want) != 0 {
+				c.Fail("challenge-differs-from-spec/interleaved", "with two transcripts used alternately, transcript "+who+" produced a challenge that differs from the specification of its own sequence", nil)
+			}
+		}
+	}
+	for i := 0; i < len(opsA) || i < len(opsB); i++ {
+		if i < len(opsA) {
+			apply(la, ra, opsA[i], "A")
+		}
+		if i < len(opsB) {
+			apply(lb, rb, opsB[i], "B")
+		}
+	}
+	c.EvalN("interleaved-two-transcripts", int64(len(opsA)+len(opsB)), true)
+}
+
 func runC14(c *mon.Ctx) {
 	pool := NewPool(c.Rand("pool"), 64)
 	nb := c.Pick(240, 6000)
@@ -294,6 +337,9 @@ func runC14(c *mon.Ctx) {
 		b := b
 		c.Case(id, func() {
 			rng := c.Rand(id)
+			for j := 0; j < 4; j++ {
+				c14interleaved(c, rng, pool)
+			}
 			for j := 0; j < per; j++ {
 				maxLen, maxMsg := 64, 200
 				if c.Thorough() && j%10 == 0 {
